@@ -1,8 +1,27 @@
-"""C15 — scheduler family; shared stream in sched.py"""
+"""C15 — scheduler family; shared stream in sched.py; plus the limit judged under the REAL agent (the DAG's maxActiveRuns
+   reaches the scheduler through Agent.newScheduler)"""
+import os, re
 import common, sched
 
 PROP = "C15"
 
 
+def tie_names(area):
+    p = os.path.join(common.LEAN, "BdModel", "Tie", area + ".lean")
+    return re.findall(r"^theorem tie_(\w+) ", open(p).read(), re.M) if os.path.exists(p) else []
+
+
 def run(chk, replay):
-    sched.run_property(chk, PROP, replay)
+    import json
+    if replay and "agent_case" in json.load(open(replay)).get("case", {}):
+        import p_c08
+        p_c08.agent_level(chk, PROP, 0, only=json.load(open(replay))["case"]["agent_case"]); return
+    chk.trusted = common.TRUSTED_COMMON + ["quiescence discipline of the scheduler harness (one completion released at a time)"]
+    chk.assumptions = [sched.NOTES.get(PROP, "")]
+    common.lean_obligations(chk, "BdModel/Props/%s.lean" % PROP,
+                            {"Sched": sched.SCHED_TIE, "Graph": sched._ties_of("Graph"), "Agent": tie_names("Agent")},
+                            extra_targets=["BdModel.Sched.Tables"])
+    sched.run_stream(chk, PROP, replay)
+    if not replay:
+        import p_c08
+        p_c08.agent_level(chk, PROP, 40 if chk.tier == "quick" else 400)
